@@ -232,6 +232,9 @@ func (r *Recorder) OnWriteExecutionEvent(m service.Message) {
 	if m.ExtensionFields.Err != nil {
 		e.Err = m.ExtensionFields.Err.Error()
 	}
+	if r.KeepMsg {
+		e.Raw = m.ExtensionFields.PlatformData // NOT a copy: the bytes the callback was handed, to be compared with e.Data later
+	}
 	e.Stamp = Stamp()
 	r.wmu.Lock()
 	r.wlog = append(r.wlog, e)
